@@ -72,6 +72,12 @@ CHECKS["C15"] = dict(
    text="Every binding occurrence and use of every parameter, let / tuple / struct / variant / or-pattern variable, if-let and match-arm variable, lambda parameter and captured variable in corpus/bind/* (runnable programs written to cover each binding construct) and in the tests/ modules (12 smallest quick / all thorough): at 3 columns of the token go-to-definition must land on a binding occurrence of the resolver's group and find-references must equal the group exactly; renaming to a fresh name must parse, keep the diagnostics, rename exactly the group's occurrences, keep the program's behaviour (corpus/bind, refsem), and renaming back must restore the original tree.",
    note="Scoping oracle is a 150-line resolver over the parsed AST (innermost binding wins; or-alternatives form one group). Behaviour only for the runnable corpus programs.",
    design_ref="DESIGN.md §5 C15")
+CHECKS["C13"] = dict(
+   category="exploration",
+   technique="exhaustive enumeration of rewrite instances (7 rewrite kinds x every applicable site) applied as text edits; oracle: same accept/reject verdict from the real checker, same behaviour under the reference semantics",
+   text="For corpus/bind/* and the tests/ modules (8 smallest quick / all thorough, each inside the whole tests+std program with a synthesised entry) and for rejected variants of them: every consistent rename of one local binding, every permutation (<=4) or adjacent transposition + reversal of toplevels and of class members, every expression wrapped in ( ) and in { }, every un-annotated let annotated with the inferred type, every inferred type-argument list made explicit, every movable class split into a new module with imports both ways. The verdict must not change; accepted runnable programs must print the same lines and end the same way under refsem.",
+   note="Rewrites are text edits at spans validated by C14; only bracket-balanced expression spans are wrapped; annotate/explicit-targs only where the type is closed and spellable. Rejected side is a small set of hand-mutated variants.",
+   design_ref="DESIGN.md §5 C13")
 NOT_YET = "check not built yet in this round (planned: see DESIGN.md §5)"
 
 hooks_commits = subprocess.run(["git","-C","/repo","log","--format=%H %s"],capture_output=True,text=True).stdout.splitlines()
